@@ -15,7 +15,7 @@ CHECKS = {
              "repeated operands, any arity, broadcasting as gather/scatter): sum_x <x.grad, dx> = <seed, dL> for all directions, and tensors L does not depend on receive nothing; every op "
              "of the exact registry (segment_sum o kernel o gathers) is proved to have an exact VJP. Tie: random DAG programs over ~30 real MyGrad ops are run on /repo and every tensor's "
              "forward value, _grad (exact integers), constant flag and creator/consumer bookkeeping are compared inside Coq with the executable model Model/GraphP.v.",
-        design_ref="DESIGN.md 5 (C01)",
+        design_ref="DESIGN.md 3 (C01)",
         note="Trusted: Coq kernel; the translation of each real op into index maps (harness/exactops.py, self-checked against NumPy and re-validated by comparing forward values); "
              "NumPy kernels; exactness of float64 on small integers. Derivative = algebraic (formal) derivative of polynomial / piecewise-linear programs at the evaluation point; "
              "transcendental ops are outside this check (C02). Order-independence over commutative rewrites is exercised by the generator (operand order randomised), proved only as "
@@ -29,7 +29,7 @@ CHECKS = {
              "arcsec 0 at +-1, sinc 0 at 0) are theorems too. Index / bilinear / piecewise-linear operations: the exact-registry theorem (every registry op has an exact VJP over any commutative ring). Ties on "
              "every run: translated formulas vs the classes run through Tensor._op on point grids (incl. 0, +-1, singular points); RealOps meanings vs NumPy; 2175 exact-integer single-op programs with systematic "
              "options (all axis forms, keepdims, broadcasting, 0-d, indices, einsum/matmul shapes, max/min selection) compared in Coq; plus a numerical catalogue of ~1140 op x option entries incl. nnet layers/losses.",
-        design_ref="DESIGN.md 5 (C02)",
+        design_ref="DESIGN.md 3 (C02)",
         note="Partial: proofs are over the reals (rounding not modelled) and cover element-wise formulas + the exact registry; prod, cumprod, mean, var, std, norm, clip, softmax family, conv_nd, max_pool, batchnorm, gru "
              "and the losses are covered only by the numerical catalogue (4th-order finite differences of MyGrad's own forward, tol 2e-6) = validation, not proof. NumPy kernels are assumed to compute the real functions "
              "of Model/RealOps.v (checked numerically each run). Axioms: the standard library's real-number axioms (ClassicalDedekindReals.sig_not_dec, sig_forall_dec, functional_extensionality_dep) via Reals/Coquelicot.",
@@ -40,7 +40,7 @@ CHECKS = {
              "orders}, the rule Tensor._op uses for a Python-scalar operand (cast to np.result_type of the operands, then NumPy's own resolution) yields exactly NumPy's NEP-50 result dtype; the pre-repair rule is refuted. "
              "Tie: the dtype each scalar was actually cast to is read from the recorded operation and compared with the modelled rule in Coq; ~5000 (thorough: ~20000) calls covering every registered ufunc, sequential, "
              "shape/joining function, operator and method over operand kinds x dtypes x layouts x options (axis forms, keepdims, ddof, dtype, out= ndarray/Tensor, where=) x tracking on/off are compared bitwise with NumPy.",
-        design_ref="DESIGN.md 5 (C03)",
+        design_ref="DESIGN.md 3 (C03)",
         note="Only the part of dtype resolution that MyGrad decides is modelled (NumPy's loop selection is a generated table, i.e. trusted input); value/shape parity rests on the differential test (a test, not a theorem). "
              "Known finding: int_tensor ** 2.0 keeps the integer dtype. Trusted: Coq kernel, harness/translate.py (table generation), harness. No axioms.",
         technique="Coq finite-lattice theorem by vm_compute over regenerated NumPy tables + exhaustive differential testing against NumPy",
@@ -51,7 +51,7 @@ CHECKS = {
              "semantics. Tie: 500 (thorough 4000) histories of views of views (basic indexing, reshape, transposes, squeeze/expand_dims, ravel), reads, in-place updates on ANY member (setitem basic/int-array with repeats/"
              "bool with broadcast values, augmented assignment, out= with and without where=), dropped members, Fortran-ordered owners: after EVERY statement values, pairwise shares_memory, .base, object identity and "
              "constant flags are compared with the NumPy mirror (the same statements executed on arrays) and with the functional model evaluated in Coq.",
-        design_ref="DESIGN.md 5 (C04)",
+        design_ref="DESIGN.md 3 (C04)",
         note="Partial: the refinement 'placeholder/replay machinery of _in_place_op computes the buffer semantics' is established by the correspondence, not proved (no pointer-level model). Index maps of view ops are "
              "computed by NumPy itself. Known finding: identity-returning view ops (np.squeeze with nothing to squeeze). No axioms.",
         technique="Coq proofs on buffer/index-map semantics + statement-by-statement differential against NumPy + functional-model correspondence by vm_compute",
@@ -61,7 +61,7 @@ CHECKS = {
              "buffer semantics and to have an exact VJP, so C01's adjoint theorem applies to the equivalent purely functional program: reads before a mutation differentiate through old values, later ones through new values, "
              "overwritten elements pass nothing to old contents, masked-out elements pass their gradient on, a mutated tensor's gradient is w.r.t. its current value. Tie: family histories + terminal built from reads before and after "
              "mutations + backward(); forward values of all tensors and gradients of all memory owners compared exactly with the model on the functional program (40% of cases with memory guarding off).",
-        design_ref="DESIGN.md 5 (C05)",
+        design_ref="DESIGN.md 3 (C05)",
         note="Partial: that MyGrad's placeholder graph IS that functional program is established by exact correspondence, not proved. 'No gradient' and 'all-zero gradient' are identified for fully overwritten tensors. "
              "Gradients of view members are C06. No axioms.",
         technique="Coq proof (exact VJP of the update operation + adjoint theorem) + exact-integer correspondence on functionalised in-place programs",
@@ -72,7 +72,7 @@ CHECKS = {
              "bases (C- and Fortran-ordered, leaves and intermediates), chains of views incl. views of views, consumers of base and views in random textual order (some through transposes), seeds that are strided non-owning "
              "views of caller arrays: v.grad is available whenever b.grad is, equals b.grad through v's map, shares memory with it; gradients of tensors that do not share memory never do; no gradient aliases data. "
              "Exact gradient values are also compared with Model/GraphP.v.",
-        design_ref="DESIGN.md 5 (C06)",
+        design_ref="DESIGN.md 3 (C06)",
         note="Partial: NumPy's layout rule (when replaying a view on the gradient is itself a view) is not modelled in Coq; sharing and availability are decided by the implementation oracle over the schedule quantifier. "
              "Two defects found and repaired (first-contribution layout, non-owning seed). No axioms.",
         technique="Coq proofs on index-map semantics + implementation oracle over consumer orders + exact-value correspondence",
@@ -83,7 +83,7 @@ CHECKS = {
              "untouched; a view op keeps gradients, a non-view op drops exactly those of its inputs; each pass computes the adjoint on its own (nothing accumulates across passes). Tie: histories run on /repo and on the "
              "model (exact gradients and flags after every backward), reference-counting liveness with gc disabled vs the model's strong-reference closure (creator edges + Tensor._base), and a bit-identical "
              "3x repetition oracle on float programs.",
-        design_ref="DESIGN.md 5 (C07)",
+        design_ref="DESIGN.md 3 (C07)",
         note="Partial: 'freed by reference counting alone' is decided by the liveness correspondence (CPython refcounting assumed), not by a theorem about a heap model; placeholders of in-place updates are not in "
              "these histories; bit-identical repetition is an implementation-side test. Trusted: Coq kernel, harness/exactops.py translation, prog_impl.py runner. No axioms.",
         technique="Coq proofs (induction over clear_graph's recursion and over histories) + exact-integer history correspondence + weakref liveness correspondence",
@@ -93,7 +93,7 @@ CHECKS = {
              "invariants over all well-formed event sequences (see Props/C08.v). Tie: (1) 1500 (12000 thorough) random event sequences drive the REAL functions with real ndarrays; flags, counters, tracked status, waiting sets and table "
              "sizes are compared with the model after every event inside Coq (id re-use and array death included); (2) property oracle on real tensor histories: every array listed by a live, guarded op with no cleared upstream tensor is "
              "read-only; at quiescence flags are restored, natively read-only arrays stay read-only, tables are empty.",
-        design_ref="DESIGN.md 5 (C08)",
+        design_ref="DESIGN.md 3 (C08)",
         note="The invariants are proved for sequences without id re-use and under the lifecycle rule (an array listed by a live op does not die); the correspondence also exercises sequences outside these hypotheses. The link "
              "'Tensor._op emits exactly these lock events' is checked by the history oracle, not proved. Trusted: Coq kernel, harness. No axioms.",
         technique="Coq invariant proofs over the lock automaton + event-sequence correspondence by vm_compute + history-level property oracle",
@@ -102,7 +102,7 @@ CHECKS = {
         text="Machine-checked proofs (Coq) over Model/GraphP.v: exact characterisation of when backward raises InvalidBackprop (some processed tensor has a non-constant input with an empty consumer set); when it "
              "returns normally the stored gradients are the adjoint of the graph as the code sees it. The property oracle 'raise, or exactly the gradients of the computation as recorded' is evaluated with the proved model on "
              "every backward call of every generated history; failures are attributed to the known finding only if the decidable predicate stale_refill (a cleared tensor in L's traversal was re-used) holds.",
-        design_ref="DESIGN.md 5 (C09)",
+        design_ref="DESIGN.md 3 (C09)",
         note="The full statement is refuted on the unchanged tree (known findings stale_refill, einsum_backward_single_use); what is proved is detection + exactness w.r.t. the effective graph; the partial theorem "
              "'no stale refill -> raise or exact as recorded' is being added (Proofs/StaleP.v). In-place updates are not in these histories. No axioms.",
         technique="Coq proof (iff characterisation of the staleness check, adjoint theorem) + exact-integer history correspondence + model-evaluated property oracle",
@@ -112,7 +112,7 @@ CHECKS = {
              "transcribed decision functions; along EVERY history no constant tensor ever holds a gradient; a constant is a cut for forward tangents (never transmits). Tie: the complete decision lattice (constructors, "
              "operations with all input-flag combinations, reshape/sum/copy/astype, tracking on/off) compared with the model in Coq; exact-integer programs with random flags vs Model/GraphP.v; implementation oracles "
              "(no constant exposes .grad; replacing constant tensors by arrays changes nothing).",
-        design_ref="DESIGN.md 5 (C10)",
+        design_ref="DESIGN.md 3 (C10)",
         note="In-place targets keeping their flag is checked under C04/C05. Known findings: constant copy keeps grad (pinned by a test), clip without bounds ignores constant=. Trusted: Coq kernel, harness. No axioms.",
         technique="Coq proofs (finite case analysis + invariant over histories) + exhaustive lattice correspondence by vm_compute + differential oracle",
     ),
@@ -121,7 +121,7 @@ CHECKS = {
              "Implementation oracle on /repo: every caller-owned array (raw array operands, integer/boolean index arrays, seed gradients incl. the arrays they are views of) is bit-identical after every statement; backward changes "
              "no tensor's data; after backward two gradients share memory only if their tensors do and no gradient shares memory with any data; over family histories with in-place updates, DAG programs, explicit owning / non-owning "
              "seeds, and the nnet layers/losses (seed and inputs untouched).",
-        design_ref="DESIGN.md 5 (C12)",
+        design_ref="DESIGN.md 3 (C12)",
         note="Partial by nature: aliasing and mutation of caller memory are memory-level facts, decided by checksums and np.shares_memory on the implementation; the Coq model is value-level. One defect found and repaired (GRU backward "
              "mutated the seed). No axioms.",
         technique="Coq proofs (value immutability on the history model) + checksum / shares_memory oracle on the implementation",
@@ -132,7 +132,7 @@ CHECKS = {
              "13 kinds of failing statements (non-view ops, view ops, in-place updates incl. shape assignment) inserted at random positions of family histories, some after a mid-history backward: (a) the statement raises, "
              "(b) every live tensor is bit-for-bit as before (value, shape, flag, base, sharing, writeable flag, gradient, creator/consumer state), (c) final values and gradients equal those of the program without the "
              "failing statements (run separately), (d) the functional model agrees.",
-        design_ref="DESIGN.md 5 (C13)",
+        design_ref="DESIGN.md 3 (C13)",
         note="The model's failure points are 'validation fails before anything is touched'; that the real rollback (restore_old_graph after placeholders replaced the public tensors) achieves this is what the fault "
              "enumeration checks. Faults inside NumPy kernels are not injected. No axioms.",
         technique="Coq proof (failed step = identity, induction over histories) + fault enumeration with before/after and with/without differential",
@@ -142,7 +142,7 @@ CHECKS = {
              "in every earlier tensor, likewise L.backward(g) and (L*g).sum().backward(); a seed is accepted exactly when its shape broadcasts INTO L's shape; reduce_broadcast restores exactly the variable's shape "
              "(so the generic path stores gradients of the tensor's shape, 0-d included). Tie: both shape lattices complete for rank<=3/extents<=3 against the model in Coq (incl. 'no gradient written on rejection'), "
              "exact-integer programs in four seedings on /repo and against Model/GraphP.v, and the type/shape/dtype invariant of every stored gradient on all programs and on 12 nnet layers/losses in f16/f32/f64.",
-        design_ref="DESIGN.md 5 (C14)",
+        design_ref="DESIGN.md 3 (C14)",
         note="dtype and ndarray-ness of gradients are checked on the implementation only (the engine model is dtype-free). Known finding: GRU stores a (T,N,D) gradient on a (T+1,N,D) tensor (pinned by a test). No axioms.",
         technique="Coq proofs (sweep simulation for the seeding identities, list induction for shape rules) + exhaustive shape-lattice correspondence + differential oracle",
     ),
@@ -152,7 +152,7 @@ CHECKS = {
              "flag and every manager's bookkeeping; plus the op gate (nothing recorded, nothing locked when tracking is off). The model is tied to "
              "/repo by running every scope program of <=5 nodes (<=6 thorough) and random deep ones on the real managers and comparing ghost traces inside Coq; "
              "the property oracle (restoration at each block exit; real ops probed at observation points) runs on the implementation alone.",
-        design_ref="DESIGN.md 5 (C15)",
+        design_ref="DESIGN.md 3 (C15)",
         note="Trusted: Coq kernel; hand-written model Model/Scopes.v (tied by trace correspondence, not by translation); harness/c15.py, harness/impl/c15_impl.py. "
              "No axioms (Print Assumptions: closed under the global context). Single-threaded use of the process-wide switches assumed.",
         technique="Coq proof by induction on scope programs + exhaustive/random trace correspondence evaluated by vm_compute",
@@ -163,7 +163,7 @@ CHECKS = {
              "arr's buffer; acceptance is exactly the documented rule; conv_nd/max_pool acceptance is characterised (conv: tiles AND window*dilation fits -- the full 'iff tiles' "
              "statement is refuted with a witness, reported as a known finding). Tie: exhaustive 1-d lattices and random n-d configurations (odd layouts, malformed arguments) run on the "
              "implementation and compared with the model in Coq; values of window/conv/pool are compared with naive nested loops on exact integers.",
-        design_ref="DESIGN.md 5 (C16)",
+        design_ref="DESIGN.md 3 (C16)",
         note="Partial: the theorems cover acceptance, shapes, strides, the element map and memory bounds of the window view and the acceptance/output-extent rules of conv/pool. "
              "That conv_nd/max_pool VALUES equal the naive formula is tested (exactly, on integers), not yet proved; batchnorm, gru, softmax and the losses are not covered yet. "
              "Trusted: Coq kernel, hand-written Model/Window.v (tied by correspondence), as_strided/ascontiguousarray semantics, harness. No axioms.",
@@ -174,7 +174,7 @@ CHECKS = {
              "whenever no dtype change is needed and never otherwise, astensor(t) is t when dtype and flag match and a new tensor on the same memory when only the flag differs, copy()/astype() results are detached. Tie: the COMPLETE "
              "lattice (5 functions x source kind x source dtype x dtype argument x constant x copy x ndmin x graph state, ~800 cells) is run on /repo and compared with the model inside Coq; oracles for values, dtype, "
              "isolation of copies and graph/gradient intact on pass-through; mg.asarray and all 14 creation routines are compared with their NumPy namesakes; non-real dtypes rejected while tracking.",
-        design_ref="DESIGN.md 5 (C17)",
+        design_ref="DESIGN.md 3 (C17)",
         note="The creation routines and asarray are covered by differential testing against NumPy (a test), the construction lattice by the theorems + exhaustive correspondence. No axioms.",
         technique="Coq proofs by case analysis on the decision model + exhaustive lattice correspondence by vm_compute + differential testing",
     ),
@@ -186,7 +186,7 @@ CHECKS = {
              "NumPy-function override (37) is called through every spelling (function, NumPy function on tensors, method, property, operator, explicit and reflected dunder, augmented, out=, where=, dtype=, "
              "in-place on leaf/intermediate) on the same operands (tensor const/non-const/float32/int, ndarray, list, Python/NumPy scalars, broadcasting, 0-d, F/strided): value bits, dtype, shape, constant "
              "flag, out-target and every operand's gradient must be identical.",
-        design_ref="DESIGN.md 5 (C11)",
+        design_ref="DESIGN.md 3 (C11)",
         note="The theorems are about routing (which class / operand order / dispatch branch); that equal routes give equal results on the implementation is established by the exhaustive spelling differential, "
              "not by proof (level: partial). Operand templates per NumPy function are hand-written; ufunc methods (reduce/accumulate/at) are not compared. No axioms.",
         technique="Coq proofs over route tables translated from source on every run + exhaustive spelling differential on the implementation",
@@ -195,13 +195,13 @@ CHECKS = {
         text="Machine-checked (Coq) over Model/IO.v (load = tensor(data) followed by backward(grad) on the fresh leaf, on the history model): data always round-trips; a float tensor's gradient round-trips; no gradient in, none out; "
              "integer/boolean tensors (constants) never get one. Tie: the complete product 7 dtypes x {0-d, empty, 1-d, 3-d} x {leaf, view with a view-gradient, intermediate with a live graph, constant copy carrying a gradient} x "
              "gradient presence x constant flag x {str path, Path, BytesIO, file handle} is run on /repo: loaded data/dtype/shape/gradient equal the saved ones and saving alters nothing (data, gradient, creator, consumers, flags).",
-        design_ref="DESIGN.md 5 (C18)",
+        design_ref="DESIGN.md 3 (C18)",
         note="numpy.savez/numpy.load are an oracle (assumed to round-trip real arrays; exercised by the check). dtype is checked on the implementation only. Graph tracking is assumed on at load time. No axioms.",
         technique="Coq proofs on the IO model + exhaustive configuration testing on the implementation",
     ),
 }
 
-NOT_YET = "check not built yet in this round (planned, see DESIGN.md section 8); not claimed until its theorem and correspondence exist"
+NOT_YET = "not claimed: no check built for this property"
 
 
 def main():
